@@ -2,11 +2,13 @@ import Driver.Util
 import Driver.Limits
 import Driver.SilLimits
 import Driver.Sem
+import Driver.Trunc
 -- engines of work area Limits: import your Driver.<Engine> modules above and list them here
 namespace Driver.Reg.Limits
 def engines : List (String × IO UInt32) := [
   ("limits", Driver.runEngine Driver.Limits.engine),
   ("sillimits", Driver.runEngine Driver.SilLimits.engine),
-  ("sem", Driver.runEngine Driver.Sem.engine)
+  ("sem", Driver.runEngine Driver.Sem.engine),
+  ("trunc", Driver.runEngine Driver.Trunc.engine)
 ]
 end Driver.Reg.Limits
